@@ -35,10 +35,11 @@ def function_classes():
         """Vector valued function assembled from python callables point(tuple)->float.
         Counts distinct points that reach eval()."""
 
-        def __init__(self, components, names=None):
+        def __init__(self, components, names=None, integer_valued=False):
             super().__init__()
             self.components = list(components)
             self.names = names
+            self.integer_valued = integer_valued   # eval() hands out an integer-typed array (counts, labels, indicators)
             self.eval_points = {}
             self.eval_calls = 0
             self.since_mark = None
@@ -58,7 +59,10 @@ def function_classes():
             v = self.eval_points.get(p)
             if v is None:
                 p = tuple(float(c) for c in p)
-                v = np.array([float(g(p)) for g in self.components])
+                if self.integer_valued:
+                    v = np.array([int(g(p)) for g in self.components], dtype=np.int64)
+                else:
+                    v = np.array([float(g(p)) for g in self.components])
                 self.eval_points[p] = v
             return v.copy()
 
@@ -66,13 +70,18 @@ def function_classes():
     return _FUNC_CLASSES
 
 
-def VFunction(components, names=None):
-    return function_classes()["VFunction"](components, names)
+def VFunction(components, names=None, integer_valued=False):
+    return function_classes()["VFunction"](components, names, integer_valued)
 
 
 # ---- component builders (plain python callables) ---------------------------------------------
 def comp_hash(salt=0):
     return lambda p: hash01(p, salt)
+
+
+def comp_int_hash(salt=0):
+    """arbitrary integer-valued function (labels / counts in -4..4)"""
+    return lambda p: int(math.floor(hash01(p, salt) * 4.5 + 0.5))
 
 
 def comp_smooth(seed, d):
@@ -343,6 +352,28 @@ def run_adaptive(c, **kw):
 
 
 # ---- generators shared by several properties -------------------------------------------------------------
+INPUT_MODES = ["float_array", "int_list", "int_tuple", "int_array", "float_list", "float_tuple"]
+
+
+def typed(vals, mode):
+    """Hand a coordinate vector to the library the way callers do: a float ndarray (the harness default), a list / tuple of
+    floats, or - when all values are whole numbers - python ints in a list / tuple or an integer-typed ndarray.
+    The values are the same numbers in every mode."""
+    vals = [float(v) for v in vals]
+    whole = all(v == math.floor(v) and abs(v) < 2 ** 40 for v in vals)
+    if mode == "int_list" and whole:
+        return [int(v) for v in vals]
+    if mode == "int_tuple" and whole:
+        return tuple(int(v) for v in vals)
+    if mode == "int_array" and whole:
+        return np.array([int(v) for v in vals], dtype=np.int64)
+    if mode in ("float_list", "int_list"):
+        return list(vals)
+    if mode in ("float_tuple", "int_tuple"):
+        return tuple(vals)
+    return np.array(vals, dtype=float)
+
+
 def gen_box(rng, d, kinds=None):
     kinds = kinds or ["unit", "unit", "shifted", "negative", "aniso", "tiny", "huge", "dyadic"]
     kind = rng.choice(kinds)
@@ -365,6 +396,9 @@ def gen_box(rng, d, kinds=None):
         elif kind == "huge":
             lo = rng.uniform(-1e3, 1e3)
             hi = lo + 10 ** rng.uniform(3, 5)
+        elif kind == "integer":
+            lo = float(rng.choice([-3, -2, -1, 0, 1, 2, 5]))
+            hi = lo + float(rng.choice([1, 2, 4, 8]))
         else:  # dyadic
             lo = float(rng.choice([-2, -1, -0.5, 0, 1, 3]))
             hi = lo + float(rng.choice([0.25, 0.5, 1, 2, 4]))
